@@ -91,6 +91,15 @@ theorem indicate_state_acts {σ α φ : Type} (mro : Exc → List String) (sh : 
 def NoEffect {σ α φ : Type} (recv : σ → φ → σ × List α × Option Exc) (f : φ) : Prop :=
   ∀ st, (recv st f).1 = st ∧ (recv st f).2.1 = []
 
+/-- the catch-all of `gn_data_indicate` around a frame without effect is without effect -/
+theorem noEffect_indicate {σ α φ : Type} (mro : Exc → List String) (sh : LoopShape) (broken : φ → Bool)
+    (proc : σ → φ → σ × List α × Option Exc) (f : φ) (h : NoEffect proc f) :
+    NoEffect (indicate mro sh broken proc) f := by
+  intro st
+  have hi := indicate_state_acts mro sh broken proc st f
+  rw [hi.1, hi.2]
+  exact h st
+
 /-- as if never received, for ANY frame processor: a frame without effect, at any position of any stream, changes
 neither the final state nor the actions of the run (provided the loop survives what the frame raises) -/
 theorem no_effect_as_if_never_received {σ α φ : Type} (mro : Exc → List String) (sh : LoopShape) (broken : φ → Bool)
